@@ -26,6 +26,61 @@ type vAS struct {
 	streams map[uint16]*Stream
 	cb      map[uint16]*atomic.Int32 // low-threshold callback invocations per stream
 	cbLock  atomic.Int32             // callbacks that could NOT take the association and stream locks
+	// white-box shadow of the pending queue, in push order: the index of a chunk in this slice is what
+	// the L0 model is told when the real queue hands that chunk out (`sel` oracle)
+	pend  []*chunkPayloadData
+	known map[*chunkPayloadData]bool
+}
+
+// notePending appends the chunks a write just pushed (not yet known) to the shadow list.
+func (h *vAS) notePending() {
+	pol, ok := h.a.pendingQueue.policy.(*messagePendingQueuePolicy)
+	if !ok {
+		h.t.Fatalf("as: pending queue policy %T not supported by the harness", h.a.pendingQueue.policy)
+	}
+	for _, q := range []*pendingBaseQueue{pol.orderedQueue, pol.unorderedQueue} {
+		for _, c := range q.queue {
+			if c != nil && !h.known[c] {
+				h.known[c] = true
+				h.pend = append(h.pend, c)
+			}
+		}
+	}
+}
+
+func (h *vAS) pendIndex(c *chunkPayloadData) int {
+	for i, x := range h.pend {
+		if x == c {
+			return i
+		}
+	}
+	return -1
+}
+
+func vJoinU32(xs []uint32) string {
+	if len(xs) == 0 {
+		return "-"
+	}
+	var sb strings.Builder
+	for i, x := range xs {
+		if i > 0 {
+			sb.WriteByte(',')
+		}
+		fmt.Fprintf(&sb, "%d", x)
+	}
+	return sb.String()
+}
+
+// rtxMarks: TSNs of the in-flight chunks currently flagged for retransmission (RACK/PTO/T3 marks)
+func (h *vAS) rtxMarks() string {
+	a := h.a
+	var out []uint32
+	for i := 0; i < a.inflightQueue.chunks.Len(); i++ {
+		if c := a.inflightQueue.chunks.At(i); c.retransmit {
+			out = append(out, c.tsn)
+		}
+	}
+	return vJoinU32(out)
 }
 
 func (h *vAS) state() string {
@@ -111,16 +166,23 @@ func (h *vAS) exec(op []string) {
 		h.streams = map[uint16]*Stream{}
 		h.cb = map[uint16]*atomic.Int32{}
 		h.cbLock.Store(0)
+		h.pend, h.known = nil, map[*chunkPayloadData]bool{}
 		h.l.line(line, fmt.Sprintf("%d %d", a.MTU(), a.maxPayloadSize))
 	case "open":
 		si := uint16(u(2))
+		h.a.lock.RLock()
+		old, registered := h.a.streams[si]
+		h.a.lock.RUnlock()
 		s, err := h.a.OpenStream(si, PayloadTypeWebRTCBinary)
 		if err != nil {
 			t.Fatal(err)
 		}
 		s.SetReliabilityParams(op[3] == "1", byte(u(4)), u(5))
 		s.SetBufferedAmountLowThreshold(uint64(u(6)))
-		cnt := &atomic.Int32{}
+		cnt := h.cb[si]
+		if !registered || old != s || cnt == nil {
+			cnt = &atomic.Int32{} // a new Stream object: its callback count starts at zero
+		}
 		a := h.a
 		s.OnBufferedAmountLow(func() {
 			cnt.Add(1)
@@ -139,13 +201,66 @@ func (h *vAS) exec(op []string) {
 		})
 		h.streams[si], h.cb[si] = s, cnt
 		h.l.line(line, "ok")
+	case "unreg": // what resetStreamsIfAny does when the peer resets its direction of the stream
+		si := uint16(u(2))
+		if s, ok := h.streams[si]; ok {
+			s.onInboundStreamReset()
+			h.a.lock.Lock()
+			delete(h.a.streams, si)
+			h.a.lock.Unlock()
+		}
+		h.l.line(line, "ok")
+	case "setstate": // 1 = established, 0 = a state in which nothing is sent and SACKs are ignored (cookieWait)
+		h.a.lock.Lock()
+		if u(2) == 1 {
+			h.a.setState(established)
+		} else {
+			h.a.setState(cookieWait)
+		}
+		h.a.lock.Unlock()
+		h.l.line(line, "ok")
 	case "write":
 		s := h.streams[uint16(u(2))]
+		if s == nil {
+			h.l.line(line, "0 nostream")
+			break
+		}
 		p := vPayload(uint64(u(4))*31+uint64(u(2)), int(u(4)))
 		n, err := s.WriteSCTP(p, PayloadProtocolIdentifier(u(3)))
+		h.a.lock.Lock()
+		h.notePending()
+		h.a.lock.Unlock()
 		h.l.line(line, fmt.Sprintf("%d %s", n, vErrClass(err)))
 	case "gather":
-		raws, ok := h.a.gatherOutbound()
+		a := h.a
+		a.lock.Lock()
+		tlr := a.tlrActive
+		budget := a.tlrCurrentBurstBudgetScaledLocked() // what gatherOutbound itself computes first (idempotent at one instant)
+		before := a.myNextTSN
+		a.lock.Unlock()
+		raws, ok := a.gatherOutbound()
+		// which pending chunks did the queue hand out, in order, and which one is at its head now
+		var sel []uint32
+		a.lock.Lock()
+		for tsn := before; tsn != a.myNextTSN; tsn++ {
+			c, found := a.inflightQueue.get(tsn)
+			i := -1
+			if found {
+				i = h.pendIndex(c)
+			}
+			if i < 0 {
+				t.Fatalf("as: chunk tsn=%d moved to in-flight is not in the shadow pending list", tsn)
+			}
+			sel = append(sel, uint32(i))
+			h.pend = append(h.pend[:i:i], h.pend[i+1:]...)
+		}
+		if c := a.pendingQueue.peek(); c != nil {
+			if i := h.pendIndex(c); i >= 0 {
+				sel = append(sel, uint32(i))
+			}
+		}
+		a.lock.Unlock()
+		h.l.line(fmt.Sprintf("as ora tlr=%s bud=%d sel=%s", vb(tlr), budget, vJoinU32(sel)), "")
 		var sb strings.Builder
 		for i, raw := range raws {
 			if i > 0 {
@@ -164,13 +279,25 @@ func (h *vAS) exec(op []string) {
 		}
 		h.a.lock.Lock()
 		err := h.a.handleSack(sack)
+		marks := h.rtxMarks()
 		h.a.lock.Unlock()
+		h.l.line("as ora rtx="+marks, "")
 		h.l.line(line, vErrClass(err))
 	case "t3":
 		h.a.onRetransmissionTimeout(timerT3RTX, uint(u(2)))
 		h.l.line(line, "")
-	case "tick": // advance the virtual clock
+	case "tick": // advance the virtual clock: the association's own timers (T3, RACK, PTO) may fire
+		n0 := h.a.stats.getNumT3Timeouts()
 		time.Sleep(time.Duration(u(2)) * time.Millisecond)
+		synctest.Wait()
+		h.a.lock.Lock()
+		marks := h.rtxMarks()
+		h.a.lock.Unlock()
+		k := h.a.stats.getNumT3Timeouts() - n0
+		if k > 0 {
+			h.l.stat("as.tick.t3fired")
+		}
+		h.l.line(fmt.Sprintf("as ora t3=%d rtx=%s", k, marks), "")
 		h.l.line(line, "")
 	default:
 		t.Fatalf("as: unknown op %v", op)
@@ -216,28 +343,93 @@ func vASGenerate(t *testing.T, h *vAS, r *vrand, nseq, nops int) {
 		peerRwnd := uint32(r.pick(0, 1, 500, 1500, 10000, 65536, 1<<20, int(^uint32(0)>>1)))
 		h.do("as new %d %d %d %d %d %d %d %d %d", mtu, rcv, minCwnd, il, tsn, peerRwnd, r.pick(0, 0, 4000), r.pick(0, 0, 2000), pair)
 		ns := 1 + r.n(3)
-		for i := 0; i < ns; i++ {
-			h.do("as open %d %d 0 0 %d", i+1, r.pick(0, 0, 1), r.pick(0, 0, 100, 5000))
+		openStream := func(i int) {
+			relType, relVal := 0, 0
+			switch r.n(6) {
+			case 0, 1: // limited retransmissions
+				relType, relVal = int(ReliabilityTypeRexmit), r.pick(0, 0, 1, 2)
+				h.l.stat("as.open.rexmit")
+			case 2: // timed
+				relType, relVal = int(ReliabilityTypeTimed), r.pick(0, 100, 1000)
+				h.l.stat("as.open.timed")
+			}
+			h.do("as open %d %d %d %d %d", i, r.pick(0, 0, 1), relType, relVal, r.pick(0, 0, 100, 5000, 40000))
 		}
+		for i := 0; i < ns; i++ {
+			openStream(i + 1)
+		}
+		unregd := map[int]bool{}
+		established := true
 		pv := &vPeerView{first: tsn, cum: tsn - 1, lastArw: peerRwnd}
+		dupBurst := 0 // remaining SACKs of a "same hole reported again" burst
 		for i := 0; i < nops; i++ {
-			switch x := r.n(100); {
-			case x < 30:
-				var size int
-				switch y := r.n(10); {
-				case y < 4:
-					size = 1 + r.n(100)
-				case y < 7:
-					size = 1 + r.n(3000)
-				case y < 9:
-					size = 1 + r.n(30000)
-				default:
-					size = 65536
+			x := r.n(100)
+			if !established && r.chance(35) {
+				x = 28 // do not stay outside the established state for long
+			}
+			if dupBurst > 0 {
+				x = 70
+				if r.chance(30) {
+					x = 40 // a gather in between: more data above the hole
 				}
-				h.do("as write %d 53 %d", 1+r.n(ns), size)
+			}
+			switch {
+			case x < 28:
+				si := 1 + r.n(ns)
+				if unregd[si] {
+					continue // never write to a stream the association no longer knows (known deviation D9, see corpus/C15/known)
+				}
+				var size int
+				switch y := r.n(20); {
+				case y < 8:
+					size = 1 + r.n(100)
+				case y < 13:
+					size = 1 + r.n(3000)
+				case y < 17:
+					size = 1 + r.n(30000)
+				case y < 18:
+					size = 65536
+				case y < 19:
+					size = 0
+					h.l.stat("as.write.empty")
+				default:
+					size = 65537 + r.n(100)
+					h.l.stat("as.write.toolarge")
+				}
+				if th := int(h.streams[uint16(si)].BufferedAmountLowThreshold()); th > 0 && th <= 65536 && r.chance(12) {
+					size = th // buffered amount lands exactly on the threshold: the boundary of the crossing test
+					h.l.stat("as.write.atthreshold")
+				}
+				ppi := 53
+				if r.chance(8) {
+					ppi = int(PayloadTypeWebRTCDCEP)
+					h.l.stat("as.write.dcep")
+				}
+				h.do("as write %d %d %d", si, ppi, size)
 				h.l.stat("as.write")
+				if !established {
+					h.l.stat("as.write.notestablished")
+				}
+			case x < 30:
+				// leave / re-enter the established state: writes in between must be rolled back
+				established = !established
+				h.do("as setstate %d", map[bool]int{true: 1, false: 0}[established])
+				h.l.stat("as.setstate")
+			case x < 32:
+				// the peer resets its direction of a stream that has nothing outstanding; later it is opened again
+				si := 1 + r.n(ns)
+				if unregd[si] {
+					openStream(si)
+					delete(unregd, si)
+					h.l.stat("as.reopen")
+				} else if h.streams[uint16(si)].BufferedAmount() == 0 {
+					h.do("as unreg %d", si)
+					unregd[si] = true
+					h.l.stat("as.unreg")
+				}
 			case x < 60:
 				before := h.a.myNextTSN
+				nfast := h.a.stats.getNumFastRetrans()
 				h.do("as gather")
 				for tsn := before; tsn != h.a.myNextTSN; tsn++ {
 					pv.sent = append(pv.sent, tsn)
@@ -245,16 +437,34 @@ func vASGenerate(t *testing.T, h *vAS, r *vrand, nseq, nops int) {
 				if h.a.myNextTSN != before {
 					h.l.stat("as.gather.newdata")
 				}
+				if h.a.stats.getNumFastRetrans() != nfast {
+					h.l.stat("as.gather.fastrtx")
+				}
+				if h.a.tlrActive {
+					h.l.stat("as.gather.tlr")
+				}
 			case x < 92:
 				// SACK: cumulative point somewhere in what was sent, gaps above it
 				nsent := int(h.a.myNextTSN - pv.first)
 				acked := int(pv.cum + 1 - pv.first)
 				cum := pv.cum
-				if nsent > acked && r.chance(80) {
+				if dupBurst == 0 && nsent > acked && r.chance(70) {
 					cum = pv.cum + uint32(r.n(nsent-acked+1))
 				}
+				room := int(h.a.myNextTSN - cum - 1)
 				gaps := "none"
-				if room := int(h.a.myNextTSN - cum - 1); room > 2 && r.chance(50) {
+				switch {
+				case dupBurst > 0 && room >= 2:
+					// the same hole (cum+1) again, everything above it received: drives miss indications to 3
+					gaps = fmt.Sprintf("2-%d", room)
+					dupBurst--
+				case dupBurst > 0:
+					dupBurst = 0
+				case room > 2 && r.chance(15):
+					dupBurst = 2 + r.n(3)
+					gaps = fmt.Sprintf("2-%d", 2+r.n(room-1))
+					h.l.stat("as.sack.dupburst")
+				case room > 2 && r.chance(50):
 					var gs []string
 					pos := 2
 					for len(gs) < 3 && pos < room && pos < 60000 {
@@ -274,18 +484,35 @@ func vASGenerate(t *testing.T, h *vAS, r *vrand, nseq, nops int) {
 					}
 				}
 				arw := uint32(r.pick(0, 0, 1, 300, 1500, 20000, 65536, 1<<20, int(pv.lastArw)))
-				switch r.n(20) {
-				case 0: // invalid: acknowledges data never sent
-					cum = h.a.myNextTSN + uint32(r.n(5))
-					h.l.stat("as.sack.invalid")
-				case 1: // invalid gap beyond what was sent
-					gaps = fmt.Sprintf("%d-%d", int(h.a.myNextTSN-cum)+1, int(h.a.myNextTSN-cum)+3)
-					h.l.stat("as.sack.invalid")
-				case 2: // stale
-					cum = pv.cum - uint32(r.n(3))
+				if dupBurst == 0 {
+					switch r.n(24) {
+					case 0: // invalid: acknowledges data never sent
+						cum = h.a.myNextTSN + uint32(r.n(5))
+						h.l.stat("as.sack.invalid")
+					case 1: // invalid gap beyond what was sent
+						gaps = fmt.Sprintf("%d-%d", int(h.a.myNextTSN-cum)+1, int(h.a.myNextTSN-cum)+3)
+						h.l.stat("as.sack.invalid")
+					case 2: // stale
+						cum = pv.cum - uint32(r.n(3))
+					case 3: // malformed block
+						gaps = r.pickS("0-1", "3-2")
+						h.l.stat("as.sack.invalid")
+					case 4, 5: // the peer acknowledges a FORWARD-TSN: cumulative point jumps over the abandoned chunks
+						if sna32GT(h.a.advancedPeerTSNAckPoint, h.a.cumulativeTSNAckPoint) {
+							cum, gaps = h.a.advancedPeerTSNAckPoint, "none"
+							h.l.stat("as.sack.fwdtsn")
+						}
+					}
 				}
+				fr := h.a.inFastRecovery
 				h.do("as sack %d %d %s %d", cum, arw, gaps, r.pick(0, 0, 0, 1, 2))
-				if sna32LT(pv.cum, h.a.cumulativeTSNAckPoint) || pv.cum != h.a.cumulativeTSNAckPoint {
+				if !fr && h.a.inFastRecovery {
+					h.l.stat("as.sack.enterFR")
+				}
+				if gaps != "none" {
+					h.l.stat("as.sack.gaps")
+				}
+				if pv.cum != h.a.cumulativeTSNAckPoint {
 					pv.cum = h.a.cumulativeTSNAckPoint
 				}
 				pv.lastArw = arw
@@ -296,13 +523,30 @@ func vASGenerate(t *testing.T, h *vAS, r *vrand, nseq, nops int) {
 			default:
 				h.do("as tick %d", r.pick(1, 50, 300, 1500))
 			}
+			if n := vASAbandoned(h.a); n > 0 {
+				h.l.stat("as.abandoned.steps")
+			}
 		}
 		// drain: everything gets acknowledged
+		if !established {
+			h.do("as setstate 1")
+		}
 		for k := 0; k < 200 && (h.a.pendingQueue.size() > 0 || h.a.inflightQueue.size() > 0); k++ {
 			h.do("as gather")
 			h.do("as sack %d %d none 0", h.a.myNextTSN-1, 1<<20)
 		}
 	}
+}
+
+// vASAbandoned: number of in-flight chunks currently abandoned (for the distribution only)
+func vASAbandoned(a *Association) int {
+	n := 0
+	for i := 0; i < a.inflightQueue.chunks.Len(); i++ {
+		if a.inflightQueue.chunks.At(i).abandoned() {
+			n++
+		}
+	}
+	return n
 }
 
 func TestVerifAssocSender(t *testing.T) {
@@ -316,7 +560,7 @@ func TestVerifAssocSender(t *testing.T) {
 		defer h.closeAssoc()
 		if ops := vReadOps(t); ops != nil {
 			for _, op := range ops {
-				if op[0] == "as" && op[1] != "st" {
+				if op[0] == "as" && op[1] != "st" && op[1] != "ora" {
 					h.exec(op)
 				}
 			}
